@@ -4,7 +4,9 @@ MC : MC_Families - the spec's own constructions of the families (Hamming from al
      Reed-Muller by Plotkin, Golay / BCH from generator polynomials) have exactly the closed-form (n, k, d), are cyclic
      where they should be and meet the sphere-packing bound: the clauses are satisfiable and the formulas are right.
 TV : one Construct + Advertise event per catalogue object; TLC computes the true minimum distance from the published
-     generator matrix (enumeration for k <= 16, column independence of H for d <= 5 above), cyclic closure,
+     generator matrix (enumeration for k <= 16; above that from the weight distribution of the dual - enumerated by the harness from the
+     published generator matrix for n - k <= 20 - through the MacWilliams identity in modular arithmetic (MacWilliams.tla, checked on the
+     specification's own dual pairs by MC_MacWilliams); column independence of H for d <= 5 otherwise), cyclic closure,
      divisibility by g(X) and the sphere-packing equality.
 """
 import random
@@ -21,6 +23,13 @@ def object_events(entry, enc, tid0, rng, quick, run):
     return evs, tid0 + 1
 
 
+def mc_macwilliams(run):
+    r = tlc.run("MC_MacWilliams", "SPECIFICATION Spec\nCHECK_DEADLOCK FALSE\nINVARIANT IdentityOK\n", workers=8, timeout=1800)
+    if not r.ok:
+        raise tlc.TLCFailure("MC_MacWilliams: %s %s\n%s" % (r.errors, r.violated, r.stdout[-2000:]))
+    run.add_tlc("MC_MacWilliams (the modular MacWilliams transform agrees with enumeration on the specification's dual pairs)", r)
+
+
 def mc_families(run, quick):
     cfg = "SPECIFICATION Spec\nCHECK_DEADLOCK FALSE\nINVARIANT FamilyOK\n"
     r = tlc.run("MC_Families", cfg, workers=8, timeout=1800)
@@ -35,8 +44,9 @@ def run(run):
     run.rule = ("one Advertise event per catalogue object (families x parameters x information sets); non-trivial = n > 1; "
                 "distinct by object name")
     mc_families(run, quick)
+    mc_macwilliams(run)
     fams = {"hamming", "golay", "repetition", "spc", "rm", "cyclic", "cyclic_named", "bch", "rs"}
-    cat = fec.catalogue(run.tier, rng, families=fams)
+    cat = fec.catalogue(run.tier, rng, families=fams, long_bch=True)
     if run.only:
         cat = [e for e in cat if e.config() == run.only.get("config")]
     run.log("catalogue: %d objects" % len(cat))
@@ -52,6 +62,8 @@ def run(run):
         t, line, clause = m[0], m[1], m[2]
         if events[line - 1]["ev"] != "Advertise":
             continue        # Construct clauses belong to C01
+        if clause.startswith("harness_"):
+            raise tlc.TLCFailure("sensor output rejected by the specification: %s at line %d" % (clause, line))
         entry = owners[line - 1]
         if (entry.name, clause) in seen:
             continue
@@ -62,15 +74,30 @@ def run(run):
                     "Advertise rejected by Trace_BlockCode clause %s" % clause)
     run.sample(events[1])
     run.sample({"object": cat[len(cat) // 2].name, "event": events[2 * (len(cat) // 2) + 1]})
-    if not mism and not run.only:
+    if not run.only:
+        # binding demonstrations on objects the specification accepted: one decided by enumeration, one through the MacWilliams route
+        bad_lines = {m[1] for m in mism}
+
+        def clean(i):
+            return (i + 1) not in bad_lines and i not in bad_lines
+
         def corrupt(ev2):
-            i = next(i for i, e in enumerate(ev2) if e["ev"] == "Advertise" and e["d"] > 1)
-            ev2[i]["d"] += 1
-            return i + 1
-        ok, msg = tv.selftest_binding("Trace_BlockCode", events[:40], corrupt)
-        if not ok:
-            raise tlc.TLCFailure("binding self-test failed: " + msg)
-        run.extra["binding_selftest"] = "raising one advertised distance by 1 is rejected at that line"
+            ev2[1]["d"] += 1
+            return 2
+        j = next((i for i, e in enumerate(events) if e["ev"] == "Advertise" and not e["dualB"] and e["d"] > 1 and events[i - 1]["k"] <= e["enum_k"] and clean(i)), None)
+        if j is not None:
+            ok, msg = tv.selftest_binding("Trace_BlockCode", events[j - 1:j + 1], corrupt)
+            if not ok:
+                raise tlc.TLCFailure("binding self-test failed: " + msg)
+            run.extra["binding_selftest"] = "raising the advertised distance of %s by 1 is rejected at that line" % owners[j].name
+        j = next((i for i, e in enumerate(events) if e["ev"] == "Advertise" and e["dualB"] and e["family"] == "bch" and e["params"] in ([5, 3], [5, 5], [5, 7]) and e["d"] == e["params"][1] and clean(i)), None)
+        if j is not None:
+            ok, msg = tv.selftest_binding("Trace_BlockCode", events[j - 1:j + 1], corrupt, "true_distance_at_least_advertised")
+            if not ok:
+                raise tlc.TLCFailure("binding self-test (MacWilliams route) failed on %s d=%s: %s" % (owners[j].name, events[j]["d"], msg))
+            run.extra["binding_selftest_macwilliams"] = "raising the advertised distance of %s by 1 is rejected through the dual's weight distribution" % owners[j].name
     run.extra["objects"] = len(cat)
-    run.assumptions += ["minimum distance decided exactly for k <= 16 (quick: 12), via H-column independence for d <= 5 and n-k <= 16 above; "
+    run.assumptions += ["minimum distance decided exactly for k <= 16 (quick: 12), above that through the MacWilliams identity when n - k <= 20 (the dual's weight "
+                        "distribution is a harness measurement on the published generator matrix, checked for well-formedness by the specification), "
+                        "via H-column independence for d <= 5 and n-k <= 16 otherwise; "
                         "larger codes are reported NOTCOVERED by the specification, not assumed"]
